@@ -25,7 +25,7 @@ import (
 
 func init() {
 	register(&Prop{
-		ID: "C14", HangIsViolation: true, Gen: genC14, GenRace: genC14, Run: runC14, Quick: 2000, Thorough: 250000, RaceQuick: 500, RaceThorough: 12000,
+		ID: "C14", HangIsViolation: true, Gen: genC14, GenRace: genC14Race, Run: runC14, Quick: 2000, Thorough: 250000, RaceQuick: 500, RaceThorough: 12000,
 		Real: []string{"pkg/exporter: InitExportingProcess, SendSet, template refresh goroutine (UDP), connection-check goroutine (TCP), CloseConnToCollector / closeConnToCollector", "pkg/entities"},
 		Stub: []string{"OS sockets (simnet; after the peer's FIN a write succeeds and vanishes, as with a real kernel)", "wall clock (synctest bubble)", "goroutine scheduling (sim layer: seeded baton scheduler with preemptions; race layer: Go scheduler under the race detector, application confined to one goroutine)"},
 		Rule: "application sends placed on / 1 ns around refresh ticks, first template before or after the first tick, peer close at a seeded time, write error on a refresh datagram, CloseConnToCollector from 1-3 other goroutines concurrently and repeatedly, sends after Close; non-trivial = at least one refresh burst or connection check overlapped with application activity, or a concurrent Close; distinct = distinct event-log hash (sim) / plan seed (race)",
@@ -134,6 +134,45 @@ func genC14(seed uint64, tier string) *plan.Plan {
 		pl.Ops = append(pl.Ops, plan.Op{K: "close"}, plan.Op{K: "data", A: 0, B: 1, C: 7, D: 5}, plan.Op{K: "close"})
 	}
 	genSchedule(r, pl, 6, 4000)
+	return pl
+}
+
+// genC14Race: the race layer cannot place goroutines, it can only make overlap likely. Half of its
+// plans are the ordinary ones; the other half keep the UDP refresher busy (1 s interval, several
+// templates, so every burst is a handful of sends) and have the application announce a new
+// template and send data exactly on / 1 ns around every tick for several ticks.
+func genC14Race(seed uint64, tier string) *plan.Plan {
+	r := rand.New(rand.NewPCG(seed, 0xc14ace))
+	if r.IntN(2) == 0 {
+		return genC14(seed, tier)
+	}
+	initC09Index()
+	pl := &plan.Plan{Cfg: map[string]int64{"proto": 1, "refresh": 1}}
+	pl.Cfg["domain"] = int64(r.Uint32())
+	R := time.Second
+	nT := 3 + r.IntN(3)
+	for i := 0; i < nT; i++ {
+		pl.Ops = append(pl.Ops, plan.Op{K: "tmpl", A: int64(i), N: pickElems(r, 1+r.IntN(4), true)})
+	}
+	now := time.Duration(0)
+	for k := 1; k <= 3+r.IntN(4); k++ {
+		t := time.Duration(k)*R + []time.Duration{0, 0, -time.Nanosecond, time.Nanosecond, 50 * time.Microsecond}[r.IntN(5)]
+		if t > now {
+			pl.Ops = append(pl.Ops, plan.Op{K: "adv", A: int64(t - now)})
+			now = t
+		}
+		if nT < 12 {
+			pl.Ops = append(pl.Ops, plan.Op{K: "tmpl", A: int64(nT), N: pickElems(r, 1+r.IntN(4), true)})
+			nT++
+		}
+		for j := r.IntN(3); j > 0; j-- {
+			pl.Ops = append(pl.Ops, plan.Op{K: "data", A: int64(r.IntN(nT)), B: int64(1 + r.IntN(3)), C: int64(r.Uint64() >> 1), D: int64(r.IntN(40))})
+		}
+	}
+	if r.IntN(3) == 0 {
+		pl.Ops = append(pl.Ops, plan.Op{K: "closer", T: 1, A: int64(now/time.Millisecond) + r.Int64N(1500), B: 1})
+	}
+	genSchedule(r, pl, 0, 0)
 	return pl
 }
 
